@@ -123,9 +123,8 @@ def run(chk):
             v = to_at(samples['th'])
             if tuple(v.axes) != ('n_p', 1):
                 raise Violation("range sample", f"axes {v.axes}", "('n_p', 1)")
-            k = draw_of(v.data[0])
-            if k[0] != 'draw' or not same_num(k[1], K('th_lo')) or not same_num(k[2], K('th_hi')):
-                raise Violation("range", f"samples['th'] = {v}", "draws in [th_lo, th_hi]")
+            from .C08 import expect_draw
+            expect_draw(v.data[0], K('th_lo'), K('th_hi'), "samples['th']")
             return "table accepted and stored as (n, 1); other key sampled in its own range"
         chk.run("C15.R2", f"{MOD}:DataGeneratorParameter.generate_data", {"table_shape": label}, go, construct=f"user table {label}")
 
